@@ -1,5 +1,5 @@
 (* C22 — executable model of gix-lock naming + acquire/commit/drop on an abstract unix file system.
-   Sources (as they ARE at the pinned tree, after the two fix: commits named in NOTES.md):
+   Sources (as they ARE at the pinned tree, after the three fix: commits named in NOTES.md):
      gix-lock/src/acquire.rs   add_lock_suffix, lock_with_mode (Fail::Immediately), dir_cleanup
      gix-lock/src/file.rs      strip_lock_suffix, lock_path, resource_path, close
      gix-lock/src/commit.rs    File::commit, Marker::commit
